@@ -1,6 +1,6 @@
 (* C19 — property theorems only.  Each is closed by [exact <lemma>] and followed by
    Print Assumptions; the statements are pinned here so they cannot be quietly weakened. *)
-From FB Require Import C19.Model C19.CoordFmtGen C19.Acyclic C19.Theory C19.TheoryTypes C19.TheorySource C19.TheoryCoord C19.TheoryCoordForms C19.TheoryPom C19.TheoryFields C19.TheoryCut C19.TheoryFuel C19.TheoryEffective C19.TheoryPipeline C19.TheoryTreeShow C19.TheoryCycles C19.TheoryRoundtrip C19.TreeBasics C19.TreeBfs C19.TreeMediation C19.TreeOrder C19.TreeTheorems.
+From FB Require Import C19.Model C19.CoordFmtGen C19.Acyclic C19.Theory C19.TheoryTypes C19.TheorySource C19.TheoryCoord C19.TheoryCoordForms C19.TheoryPom C19.TheoryFields C19.TheoryCut C19.TheoryFuel C19.TheoryEffective C19.TheoryPipeline C19.TheoryTreeShow C19.TheoryCycles C19.TheoryRoundtrip C19.TheoryRelational C19.TreeBasics C19.TreeBfs C19.TreeMediation C19.TreeOrder C19.TreeTheorems.
 From Coq Require Import Sorting.Sorted.
 
 (* the scope table in the source (regenerated into ScopeGen.v on every run) is Maven's documented table *)
@@ -463,3 +463,73 @@ Theorem C19_examples :
            mkFound (mkResolver [114%N] [114%N]) (mkCoord [103%N] (ex_s 120) [50%N] None s_jar) Compile].
 Proof. exact (conj mediation_example (conj coord_roundtrip_example resolution_example)). Qed.
 Print Assumptions C19_examples.
+
+(* ==== round 5 ==== *)
+
+(* ---- effective POMs as an inductively defined relation (C19/TheoryRelational.v: eff_pom / eff_chain / eff_merge / eff_dm,
+   one rule per construct: first serving repository, the chain of parents to its end, group/version inheritance, own managed
+   entries in order with every import replaced in place by the management of the BOM's EFFECTIVE POM, then the parent's;
+   declared dependencies own ++ inherited, completed from that management) — no fuel, no acyclicity hypothesis.
+   The model computes exactly this relation, in EVERY universe ---- *)
+Theorem C19_effective_pom_relational : forall fs rs c r m,
+  eff_pom fs rs c r m <-> exists f, get_merged_pom f fs rs c = Ok (r, m).
+Proof. exact eff_pom_iff_computed. Qed.
+Print Assumptions C19_effective_pom_relational.
+
+Theorem C19_effective_pom_functional : forall fs rs c r1 m1 r2 m2,
+  eff_pom fs rs c r1 m1 -> eff_pom fs rs c r2 m2 -> r1 = r2 /\ m1 = m2.
+Proof. exact eff_pom_functional. Qed.
+Print Assumptions C19_effective_pom_functional.
+
+(* in an acyclic universe: the graph of the model's function at the canonical fuel, and total exactly where that is not Err *)
+Theorem C19_effective_pom_acyclic : forall fs rs ranks, acyclic_check fs rs ranks = true ->
+  forall c r m, eff_pom fs rs c r m <-> get_merged_pom (S (length fs)) fs rs c = Ok (r, m).
+Proof. exact eff_pom_acyclic. Qed.
+Print Assumptions C19_effective_pom_acyclic.
+
+Theorem C19_effective_pom_exists_iff : forall fs rs ranks, acyclic_check fs rs ranks = true ->
+  forall c, (exists r m, eff_pom fs rs c r m) <-> get_merged_pom (S (length fs)) fs rs c <> Err.
+Proof. exact eff_pom_exists_iff. Qed.
+Print Assumptions C19_effective_pom_exists_iff.
+
+(* on cycles there is none *)
+Theorem C19_no_effective_pom_in_import_trap : forall fs rs (T : coord -> Prop),
+  (forall c, T c -> forall r p f stack, try_get_pom_for fs rs c = Ok (r, p) -> parent_chain f fs rs p = Ok stack ->
+     Exists (imports_into T) (p :: stack)) ->
+  forall c r m, T c -> ~ eff_pom fs rs c r m.
+Proof. exact eff_pom_none_in_import_trap. Qed.
+Print Assumptions C19_no_effective_pom_in_import_trap.
+
+Theorem C19_no_effective_pom_in_parent_trap : forall fs rs (P : pom -> Prop),
+  (forall p, P p -> exists c, get_parent_coord p = Some c /\ forall r q, try_get_pom_for fs rs c = Ok (r, q) -> P q) ->
+  forall c r p m, try_get_pom_for fs rs c = Ok (r, p) -> P p -> forall r', ~ eff_pom fs rs c r' m.
+Proof. exact eff_pom_none_in_parent_trap. Qed.
+Print Assumptions C19_no_effective_pom_in_parent_trap.
+
+(* who supplies the managed entry for a key: the child's own expanded entries before the parent's (hence the parent's
+   before the grandparent's) ... *)
+Theorem C19_effective_management_child_first : forall fs rs par child m,
+  eff_merge fs rs par child m ->
+  exists own, eff_dm fs rs (p_dm child) own /\ pd_dm m = own ++ parent_dm par /\
+    pd_declared m = p_deps child ++ parent_declared par /\
+    map_res (make_dependency (pd_dm m)) (pd_declared m) = Ok (pd_deps m) /\
+    forall k, managed (pd_dm m) k = match managed own k with Some e => Some e | None => managed (parent_dm par) k end.
+Proof. exact eff_merge_management. Qed.
+Print Assumptions C19_effective_management_child_first.
+
+(* ... and within the own entries the declaration order: a plain entry, or the whole management of an imported BOM's
+   effective POM, before everything declared after it (an earlier import before a later one) *)
+Theorem C19_effective_management_in_place : forall fs rs x rest out k,
+  eff_dm fs rs (x :: rest) out ->
+  exists first others, out = first ++ others /\ eff_dm fs rs rest others /\
+    managed out k = match managed first k with Some e => Some e | None => managed others k end /\
+    (d_scope x <> Some MImport -> exists v, d_version x = Some v /\
+       first = [mkDDone (dm_coord x v) (match d_scope x with Some m => into_scope m | None => None end) (d_optional x)]) /\
+    (d_scope x = Some MImport -> exists v r target, d_version x = Some v /\ eff_pom fs rs (dm_coord x v) r target /\ first = pd_dm target).
+Proof. exact eff_dm_order. Qed.
+Print Assumptions C19_effective_management_in_place.
+
+Theorem C19_effective_pom_example :
+  exists r m, eff_pom ex_files [mkResolver [114%N] [114%N]] (mkCoord [103%N] (ex_s 99) [49%N] None s_jar) r m /\ pd_deps m <> [].
+Proof. exact eff_pom_example. Qed.
+Print Assumptions C19_effective_pom_example.
